@@ -37,3 +37,9 @@ Fixpoint map2 {A B C} (f : A -> B -> C) (l1 : list A) (l2 : list B) : list C :=
   | a :: t1, b :: t2 => f a b :: map2 f t1 t2
   | _, _ => []
   end.
+
+(* pointwise integer-array helpers (numpy broadcasting over equal-length vectors) *)
+Definition vadd (a b : list Z) : list Z := map2 Z.add a b.
+Definition vsub (a b : list Z) : list Z := map2 Z.sub a b.
+Definition vaddc (a : list Z) (c : Z) : list Z := map (fun x => (x + c)%Z) a.
+Definition vsubc (a : list Z) (c : Z) : list Z := map (fun x => (x - c)%Z) a.
